@@ -145,6 +145,22 @@ def run_verus_unit(repo, unit_name, variant, workdir, log, only_fns=None):
         if not sem:
             break  # not a proof failure: no point retrying
         log("  %s: attempt %d failed with %d semantic error(s); %s" % (vname, k + 1, len(sem), "retrying" if k + 1 < len(attempts) else "giving up"))
+    if r is not None and r["rc"] != 0 and not (variant or {}).get("loop_context") \
+            and any(d["level"] == "error" and V.is_semantic(d["msg"]) for d in r["diags"]) \
+            and not any(d["level"] == "error" and not V.is_semantic(d["msg"]) and not d["msg"].startswith("aborting due to") for d in r["diags"]):
+        # last attempt: the same unit with every loop seeing the facts established before it (`loop_isolation(false)`).  Verus' default
+        # isolates a loop from its context, so a local merely introduced before a loop can make a correct body fail; the non-isolated
+        # encoding in turn gives the solver more to chew on.  Both encodings are sound: the obligations hold if EITHER run discharges them.
+        try:
+            bu_lc = V.build_unit(repo, u2, dict(variant or {}, loop_context=True))
+            if bu_lc.text() != bu.text():
+                r_lc = V.run_verus(bu_lc, os.path.join(workdir, vname.replace("[", "_").replace("]", "").replace(",", "_").replace("=", "") + "_lc"), rlimit=60)
+                log("  %s: retry with loops in context -> rc %s" % (vname, r_lc["rc"]))
+                if r_lc["rc"] == 0:
+                    r, bu, text = r_lc, bu_lc, bu_lc.text()
+                    res["loops_in_context"] = True
+        except Undecided:
+            pass
     res["cmd"] = r["cmd"]
     res["wall_s"] = r["wall_s"]
     synt, problems = syntactic_checks(repo, unit)
